@@ -571,7 +571,11 @@ func emit(e *exec) ([]string, emitStats) {
 	// else both are the instant the hook was logged (a wake-up is logged after the timer fired).
 	var lo, hi int64
 	invokeT := map[int]int64{}
-	tw := func(s string) string { return fmt.Sprintf("((%d)%%Z, (%d)%%Z, %s", lo, hi, s[1:]) }
+	tw := func(s string) string {
+		// "(label, obs)" -> "ev lo hi (label) (obs)": the obs starts at the last ", Ob"
+		k := strings.LastIndex(s, ", Ob")
+		return fmt.Sprintf("ev %d %d (%s) (%s)", lo, hi, s[1:k], s[k+2:len(s)-1])
+	}
 	flush := func(g int) {
 		if pendingCancel[g] {
 			evs = append(evs, tw(fmt.Sprintf("(LCtxCancel %d, ObNone)", g)))
@@ -1135,7 +1139,7 @@ func main() {
 
 	var terms []string
 	start := 0
-	const shard = 150
+	const shard = 100
 	flush := func() {
 		if len(terms) == 0 {
 			return
